@@ -4,16 +4,20 @@
 # worktree of /repo, then runs the named checks (default: the property's own) against it via VERIF_REPO.
 ID=$1; N=$2; DEST=$3; CMD=$4; shift 4; CHECKS="$*"; [ -z "$CHECKS" ] && CHECKS=$ID
 SRC=/tmp/seed_$ID/_seed
-WT=/tmp/ev_${ID}_$N
+WT=/tmp/ev_${ID}_$N$SKIP_CONFIRM
 export GOFLAGS=-mod=mod GOPROXY=off GOSUMDB=off
 git -C /repo worktree remove --force $WT 2>/dev/null
 git -C /repo worktree add -q $WT HEAD || exit 3
 mkdir -p $WT/$(dirname $DEST); cp $SRC/demo${N}_test.go $WT/$DEST
 for extra in $SRC/demo${N}_extra/*; do [ -e "$extra" ] && cp -r "$extra" $WT/$(dirname $DEST)/; done
+if [ -z "$SKIP_CONFIRM" ]; then
 echo "== demo WITHOUT change"; (cd $WT && timeout 300 bash -c "$CMD") >/tmp/ev_${ID}_${N}_before.log 2>&1; b=$?; tail -3 /tmp/ev_${ID}_${N}_before.log; echo "exit=$b"
+fi
 git -C $WT apply $SRC/change$N.diff || { echo "PATCH DOES NOT APPLY"; git -C /repo worktree remove --force $WT; exit 3; }
+if [ -z "$SKIP_CONFIRM" ]; then
 echo "== build + baseline WITH change"; (cd $WT && go build ./... && mv $DEST /tmp/ev_demo_hold.go && go test -vet=off -count=1 ./... 2>&1 | grep -v "no test files" | tail -12; mv /tmp/ev_demo_hold.go $DEST)
 echo "== demo WITH change"; (cd $WT && timeout 300 bash -c "$CMD") >/tmp/ev_${ID}_${N}_after.log 2>&1; a=$?; tail -5 /tmp/ev_${ID}_${N}_after.log; echo "exit=$a"
+fi
 rm -f $WT/$DEST
 for c in $CHECKS; do
   echo "== check $c quick against the change"
